@@ -65,8 +65,13 @@ class InfoFilePersister:
                 yield Succeeded(TrashedFile(trashinfo_path),
                                 ".trashinfo created as %s." % trashinfo_path)
             except OSError as e:
-                if e.errno == errno.ENAMETOOLONG:
+                if e.errno == errno.ENAMETOOLONG and not name_too_long:
                     name_too_long = True
+                elif e.errno is not None and e.errno != errno.EEXIST:
+                    # another name cannot cure this error (permission denied,
+                    # read-only file system, no space left, ...): give up
+                    # instead of retrying forever
+                    raise
                 yield NeedsMoreAttempts(trashinfo_path,
                                         "attempt for creating %s failed." % trashinfo_path)
 
